@@ -1,0 +1,28 @@
+//go:build verif
+
+package ketoapi
+
+// Verification harnesses (compiled only with -tags verif, never called by the
+// program): each composes an encoder with its decoder on a fully symbolic input,
+// so that the round-trip statements of property C18 become postconditions that
+// /verif/bin/govc proves over the real codec bodies (see verif_contracts.go).
+
+import rts "github.com/ory/keto/proto/ory/keto/relation_tuples/v1alpha2"
+
+func verifRoundTripURLTuple(x *RelationTuple) (*RelationTuple, error) {
+	return (&RelationTuple{}).FromURLQuery(x.ToURLQuery())
+}
+
+func verifRoundTripURLQuery(x *RelationQuery) (*RelationQuery, error) {
+	return (&RelationQuery{}).FromURLQuery(x.ToURLQuery())
+}
+
+func verifRoundTripProtoTuple(x *RelationTuple) *RelationTuple {
+	return (&RelationTuple{}).FromProto(x.ToProto())
+}
+
+func verifRoundTripDataProviderTuple(x *RelationTuple) (*RelationTuple, error) {
+	return (&RelationTuple{}).FromDataProvider(x.ToProto())
+}
+
+var _ = rts.NewSubjectID
